@@ -1,18 +1,25 @@
 import Arimaa.Props.C10
 import Arimaa.Lemmas.RsAgreeStep
+import Arimaa.Gen.Bridge.GameState_take_action
+import Arimaa.Gen.Bridge.PieceBoardState_bits_by_piece_type
+import Arimaa.Gen.Bridge.PieceBoardState_bits_for_piece
+import Arimaa.Gen.Bridge.PieceBoardState_piece_type_at_square
+import Arimaa.Gen.Bridge.PieceBoardState_player_piece_mask
 
 /-!
 # C10 — the property at the level of the REGENERATED code
 
 `Gen/Rs.lean` is written by `tools/rs2lean2.py` from the current text of engine.rs / zobrist.rs on every
-run; `Lemmas/RsAgree*.lean` prove that each regenerated function equals
-`Res.guard (hand panic guard) (hand total function)`.  This file puts the agreement theorems of the
-functions C10 rests on into the property's proof closure and restates them as one named obligation
-(`C10_code_agrees`), plus corollaries that speak about the regenerated functions directly.  A change of
-the Rust text of one of these functions breaks an obligation here without any test having to find the input.
+run.  `Gen/Bridge/<fn>.lean` (generated) proves `@Rs.fn = @RsBase.fn` — the current text against the
+baseline text — and `Lemmas/RsAgree*.lean` prove that each baseline function equals
+`Res.guard (hand panic guard) (hand total function)`.  This file puts both, for the functions C10 rests
+on, into the property's proof closure and restates them as one named obligation (`C10_code_agrees`) about
+the CURRENT functions, plus corollaries that speak about them directly.  A change of the Rust text of one
+of these functions that alters behaviour breaks an obligation here without any test having to find the input.
+(written by tools/mkrprops.py)
 -/
 namespace Arimaa
-open Gen GameState Arimaa.Gen.Rs Arimaa.Rt
+open Gen GameState Arimaa.Gen.Rs Arimaa.Rt Arimaa.Gen.Bridge
 
 theorem C10_value_of_ok {α : Type} {x : Res α} {p : Bool} {v w : α} (h : x = Res.guard p v) (hx : x = .ok w) :
     p = false ∧ w = v := by
@@ -20,14 +27,18 @@ theorem C10_value_of_ok {α : Type} {x : Res α} {p : Bool} {v w : α} (h : x = 
   obtain ⟨hp, hv⟩ := Res.guard_eq_ok.mp hx
   exact ⟨hp, hv.symm⟩
 
-/-- the agreement theorems C10 rests on, as one obligation -/
+/-- the agreement theorems C10 rests on, about the CURRENT functions, as one obligation -/
 theorem C10_code_agrees :
     (∀ (s : GameState) (a : Action), GameState_take_action s a = Res.guard (s.takeActionPanics a) (s.takeAction a)) ∧
     (∀ (b : Board) (p : Piece) (p1 : Bool), PieceBoardState_bits_for_piece b p p1 = b.bitsForPiece p p1) ∧
     (∀ (b : Board) (p1 : Bool), PieceBoardState_player_piece_mask b p1 = b.playerPieceMask p1) ∧
     (∀ (b : Board) (p : Piece), PieceBoardState_bits_by_piece_type b p = b.bitsByPieceType p) ∧
     (∀ (b : Board) (sq : Nat), PieceBoardState_piece_type_at_square b sq = Res.guard (b.pieceTypeAtSquarePanics sq) (b.pieceTypeAtSquare sq)) :=
-  ⟨RsAgree.take_action_eq, RsAgree.bits_for_piece, RsAgree.player_piece_mask, RsAgree.bits_by_piece_type, RsAgree.piece_type_at_square⟩
+  ⟨(by simp only [bridge_GameState_take_action]; exact RsAgree.take_action_eq),
+   (by simp only [bridge_PieceBoardState_bits_for_piece]; exact RsAgree.bits_for_piece),
+   (by simp only [bridge_PieceBoardState_player_piece_mask]; exact RsAgree.player_piece_mask),
+   (by simp only [bridge_PieceBoardState_bits_by_piece_type]; exact RsAgree.bits_by_piece_type),
+   (by simp only [bridge_PieceBoardState_piece_type_at_square]; exact RsAgree.piece_type_at_square)⟩
 
 
 end Arimaa
